@@ -184,6 +184,7 @@ def r2(ctx: RuleCtx) -> None:
     # (a) order of the classification chain, on every world of its atoms
     mod, cdef, fn = _resolve(ctx, CLIKE, 'CLikeCompilerArgs', '_can_dedup')
     qn = f'{cdef.name}._can_dedup'
+    fn = _inline(mod, cdef.name, fn)
     tab = tables.extract(fn, name=qn, pure={'search', 'match', 'fullmatch'}, outcome=_path_outcome)
     tests: T.Dict[Atom, ArgTest] = {}
     for a in tab.atoms():
@@ -193,6 +194,8 @@ def r2(ctx: RuleCtx) -> None:
         tests[a] = t
     ctx.floor('_can_dedup: tests on class tables', len(tests), 4)
     prefix_tables = {t.table for t in tests.values() if t.kind == 'prefix'}
+    if not tests or not prefix_tables:
+        raise Undecided(f'{qn}: no startswith test on a class table is visible in the classification chain')
     n = 0
     bad: T.Dict[str, T.Tuple[tables.Row, str, str, str]] = {}
     for w in tab.worlds():
@@ -209,6 +212,8 @@ def r2(ctx: RuleCtx) -> None:
             raise Undecided(f'{qn}: {len(rows)} rows fire in one world')
         n += 1
         got = rows[0].outcome[1].split('.')[-1] if rows[0].outcome[0] == 'return' else str(rows[0].outcome)
+        if rows[0].outcome[0] != 'return' or rows[0].outcome[1] not in ('Dedup.NO_DEDUP', 'Dedup.UNIQUE', 'Dedup.OVERRIDDEN'):
+            raise Undecided(f'{qn}: a row yields `{rows[0].outcome[-1]}`, not a member of Dedup (classification done elsewhere?)')
         if got != want:
             desc = ', '.join(f'{t.kind}:{t.table}' for a, t in tests.items() if w[a]) or 'no test holds'
             bad.setdefault(repr(rows[0]), (rows[0], got, want, desc))
@@ -232,6 +237,7 @@ def r2(ctx: RuleCtx) -> None:
     # (b) _should_prepend is equivalent to "starts with an entry of prepend_prefixes", on every world of its atoms
     pmod, pcdef, pfn = _resolve(ctx, CLIKE, 'CLikeCompilerArgs', '_should_prepend')
     pqn = f'{pcdef.name}._should_prepend'
+    pfn = _inline(pmod, pcdef.name, pfn)
     ptab = tables.extract(pfn, name=pqn, outcome=_path_outcome)
     ptests: T.Dict[Atom, ArgTest] = {}
 
@@ -271,6 +277,7 @@ def r2(ctx: RuleCtx) -> None:
         a, pol = tables.canon(e, True)
         return w[a] == pol
     want_atom = [a for a, t in ptests.items() if t == ArgTest('prefix', 'prepend_prefixes')]
+    bare_atom = [a for a, t in ptests.items() if t == ArgTest('eq', 'prepend_prefixes')]
     import itertools
     diff = None
     nw = 0
@@ -280,13 +287,28 @@ def r2(ctx: RuleCtx) -> None:
         if len(rows) != 1:
             raise Undecided(f'{pqn}: {len(rows)} rows fire in one world')
         nw += 1
+        if bare_atom and want_atom and w[bare_atom[0]] and not w[want_atom[0]]:
+            continue        # `arg in P` implies `arg.startswith(P)`
         got = truth(ast.parse(rows[0].outcome[1], mode='eval').body, w)
-        if not want_atom or got != w[want_atom[0]]:
+        if not want_atom or got != (w[want_atom[0]] and not (bare_atom and w[bare_atom[0]])):
             diff = ', '.join(f'{t.kind}:{t.table}={w[a]}' for a, t in ptests.items())
             break
     ctx.require(diff is None, f'{pqn}: true exactly when the argument starts with an entry of prepend_prefixes ({nw} worlds)', pmod, pqn, pfn,
                 f'_should_prepend is not equivalent to arg.startswith(cls.prepend_prefixes) (differs when {diff}): '
                 'arguments of the wrong kind are put in front / -I, -L are appended', pfn)
+
+    # a prefix given as a word of its own (`-I`, `dir`) is defined by the word after it (comment in _can_dedup): it is not
+    # de-duplicated, and it must not be moved to the front either - that separates it from its operand and changes the
+    # relative order of arguments that cannot be de-duplicated
+    if diff is None and not bare_atom:
+        amod_ = ctx.repo.module(ARGLIST)
+        iadd = _inline(amod_, ROOT, amod_.func(f'{ROOT}.__iadd__'))
+        if any(isinstance(n, ast.Attribute) and n.attr == 'prepend_prefixes' for n in ast.walk(iadd)):
+            raise Undecided(f'{ROOT}.__iadd__ consults prepend_prefixes itself; cannot tell whether a bare prefix is kept in place')
+        ctx.violation(pmod, pqn, 'bare prefix is prepended', f'_should_prepend is true for an argument that is itself an entry of prepend_prefixes (no `arg in cls.prepend_prefixes` '
+                      'exclusion here or in __iadd__): `-I`, `dir` given as two words is torn apart (`-I` goes in front, `dir` stays behind)', pfn)
+    elif diff is None:
+        ctx.ok(f'{pqn}: an argument that is itself a prepend prefix stays in place')
 
     # (c) folded tables of the C-like class against the reference sets
     cmod = ctx.repo.module(CLIKE)
@@ -585,8 +607,9 @@ class ListVal:
 
 
 class SetVal:
-    def __init__(self, name: str) -> None:
+    def __init__(self, name: str, members: T.Optional[T.FrozenSet[int]] = None) -> None:
         self.name = name
+        self.members: T.FrozenSet[int] = members if members is not None else frozenset([id(self)])   # base sets this value is the union of
 
 
 EMPTY_LISTS = ('[]', 'list()', 'collections.deque()', 'deque()')
@@ -604,6 +627,21 @@ def _slow_path(ctx: RuleCtx, mod: Module, qn: str, fn: T.Any, slow: T.List[ast.s
     def flip(segs: T.List[Seg]) -> T.List[Seg]:
         return [x._replace(order='store' if x.order == 'reversed' else 'reversed') for x in reversed(segs)]
 
+    def set_of(e: ast.AST) -> T.Optional[SetVal]:
+        if isinstance(e, ast.Name) and isinstance(env.get(e.id), SetVal):
+            return env[e.id]
+        if isinstance(e, ast.BinOp) and isinstance(e.op, ast.BitOr):
+            l, r = set_of(e.left), set_of(e.right)
+            if l is not None and r is not None:
+                return SetVal('|', l.members | r.members)
+        if isinstance(e, ast.Call) and isinstance(e.func, ast.Attribute) and e.func.attr == 'union' and not e.keywords:
+            parts = [set_of(e.func.value)] + [set_of(x) for x in e.args]
+            if all(p_ is not None for p_ in parts):
+                return SetVal('|', frozenset().union(*[p_.members for p_ in parts]))  # type: ignore[union-attr]
+        if isinstance(e, ast.Call) and norm(e.func) in ('set', 'frozenset') and len(e.args) == 1 and not e.keywords:
+            return set_of(e.args[0])
+        return None
+
     def comp_seg(e: T.Any) -> T.List[Seg]:
         if len(e.generators) != 1 or e.generators[0].is_async or not isinstance(e.generators[0].target, ast.Name) or norm(e.elt) != e.generators[0].target.id:
             raise Undecided(f'{qn}: comprehension `{short(e, 60)}` is not a plain filter of one store')
@@ -616,8 +654,9 @@ def _slow_path(ctx: RuleCtx, mod: Module, qn: str, fn: T.Any, slow: T.List[ast.s
             parts = cond.values if isinstance(cond, ast.BoolOp) and isinstance(cond.op, ast.And) else [cond]
             for part in parts:
                 at, pol = tables.canon(part, True)
-                if at.kind == 'in' and at.args[0] == x and not pol and isinstance(env.get(at.args[1]), SetVal):
-                    tested.add(id(env[at.args[1]]))
+                sv = set_of(ast.parse(at.args[1], mode='eval').body) if at.kind == 'in' and at.args[0] == x and not pol else None
+                if sv is not None:
+                    tested |= sv.members
                 else:
                     raise Undecided(f'{qn}: filter `{short(part, 60)}` of a comprehension is outside the reference vocabulary')
         return [Seg(store, 'store' if direction == 'forward' else 'reversed', None, frozenset(tested), None, e)]
@@ -667,6 +706,8 @@ def _slow_path(ctx: RuleCtx, mod: Module, qn: str, fn: T.Any, slow: T.List[ast.s
     def value_of(v: ast.AST) -> T.Any:
         if isinstance(v, ast.Name) and isinstance(env.get(v.id), (ListVal, SetVal)):
             return env[v.id]              # alias: the same object
+        if set_of(v) is not None:
+            return set_of(v)
         if isinstance(v, ast.Call) and norm(v) in ('set()', 'frozenset()'):
             return SetVal('?')
         if isinstance(v, ast.Set) and not v.elts:
@@ -716,7 +757,7 @@ def _slow_path(ctx: RuleCtx, mod: Module, qn: str, fn: T.Any, slow: T.List[ast.s
                 sets.append(env[nm])
             fwd = f.direction == 'forward'
             seg = Seg(f.store, 'store' if fwd == (f.end == 'back') else 'reversed', ('first' if fwd else 'last') if f.added else None,
-                      frozenset(id(env[nm]) for nm in f.tested), id(env[f.added]) if f.added else None, st)
+                      frozenset().union(*[env[nm].members for nm in f.tested]) if f.tested else frozenset(), id(env[f.added]) if f.added else None, st)
             if f.end == 'back':
                 out.segs.append(seg)
             else:
